@@ -39,7 +39,30 @@ class Hub:
             ctx.missing(rid, SERVE)
         self.graph = self.cg.reach([SERVE])
         import flow as _flow
-        self.ip = _flow.Interproc(F, opaque={SAFE_JOIN, TMP_OF, 'wire::read_frame', 'serve::current_hash', 'meta::fingerprint_path',
+        # helpers located by what they are used for, not by name (a private fn may be renamed):
+        #   staging-name helper = the crate-local fn whose result is the path of the content creator in handle_put
+        #   current-hash helper = the crate-local fn whose result is the first argument of cas_decide
+        self.tmp_of = TMP_OF if F.body(TMP_OF) is not None else None
+        self.current_hash = 'serve::current_hash' if F.body('serve::current_hash') is not None else None
+        cand_t, cand_c = set(), set()
+        for gp in sorted(self.graph):
+            gb = F.body(gp)
+            if gb is None or not gb.file.endswith('bin/copia/serve.rs'):
+                continue
+            gfl = flow_of(gb)
+            for cb_, ct_ in gfl.calls(lambda c: c in tables.CONTENT_CREATORS and not c.endswith('OpenOptions::open')):
+                for o in gfl.origins(ct_['args'][tables.CONTENT_CREATORS[callee(ct_)]]):
+                    if o.kind == 'call' and F.body(o.key) is not None and o.key != SAFE_JOIN:
+                        cand_t.add(o.key)
+            for cb_, ct_ in gfl.calls_to('wire::cas_decide'):
+                for o in gfl.origins(ct_['args'][0]):
+                    if o.kind == 'call' and F.body(o.key) is not None:
+                        cand_c.add(o.key)
+        if len(cand_t) == 1:
+            self.tmp_of = list(cand_t)[0]
+        if len(cand_c) == 1:
+            self.current_hash = list(cand_c)[0]
+        self.ip = _flow.Interproc(F, opaque={SAFE_JOIN, self.tmp_of, 'wire::read_frame', self.current_hash, 'meta::fingerprint_path',
                                               'meta::discover_local_fingerprints', 'transfer::discover_local_files'})
         # for labelling every crate-local call stays visible (judged from its body by helper_return_label: summaries by
         # provenance alone would carry taint through sanitising helpers such as a hex formatter)
@@ -119,7 +142,7 @@ class Hub:
                 return {SAFE}
             if c == 'wire::read_frame':
                 return {TAINT}
-            if c == TMP_OF:
+            if c == self.tmp_of:
                 # staging-name helper: prefer what its body derives the name from; fall back to "anything in its arguments"
                 lab = self.helper_return_label(c, depth)
                 if lab is not None:
@@ -141,7 +164,7 @@ class Hub:
                             continue    # an integer renders as digits / hex digits / sign: no separators, no dots
                     out |= self.label_operand(body, a, depth + 1, self._seen)
                 return out
-            if c in (TMP_OF, 'std::path::Path::join', 'std::path::Path::parent', 'std::path::Path::with_extension',
+            if c in (self.tmp_of, 'std::path::Path::join', 'std::path::Path::parent', 'std::path::Path::with_extension',
                      'std::path::Path::with_file_name', 'std::path::PathBuf::from', 'std::path::Path::strip_prefix',
                      'std::path::Path::file_stem', 'std::path::Path::file_name', 'std::path::Path::extension', 'std::ffi::OsStr::to_string_lossy',
                      'std::ffi::OsStr::to_str', 'std::path::Path::to_string_lossy', 'std::path::Path::to_str', 'std::path::Path::display',
@@ -250,12 +273,36 @@ class Hub:
             out.add((body.path, o))
         return out
 
+    def param_class(self, body, i, depth=0):
+        """{classes} of the arguments passed for parameter i at the call sites of `body` in the serve graph (None for the
+        entry point, for functions without call sites, or when the arguments are not paths built in the caller)"""
+        if body.path == SERVE or depth > 4:
+            return None
+        key = ('cls', body.path, i)
+        if key in self._plabel:
+            return self._plabel[key]
+        self._plabel[key] = None
+        sites = [(b, bb) for (b, bb, c) in self.cg.call_sites(lambda c: c == body.path, within=self.graph)]
+        out = set()
+        for b, bb in sites:
+            t = b.blocks[bb]['term']
+            if i - 1 >= len(t['args']):
+                return None
+            c = self.path_class(b, t['args'][i - 1])
+            out |= set(c.split('+'))
+        res = out if out and 'other' not in out else None
+        # only trust it when the callers actually build the path (a call to tmp_of / safe_join / join is visible there)
+        if res is not None and not (res & {'staging', 'control'}):
+            res = None
+        self._plabel[key] = res
+        return res
+
     def path_class(self, body, op):
         """'staging' (through tmp_of), 'live' (safe_join-derived, not through tmp_of), 'control' (root-derived), 'other'."""
         dos = self.deep_origins(body, op)
         kinds = set()
         for bp, o in dos:
-            if o.kind == 'call' and o.key == TMP_OF:
+            if o.kind == 'call' and o.key == self.tmp_of:
                 kinds.add('staging')
             elif o.kind == 'call' and o.key == SAFE_JOIN:
                 kinds.add('live')
@@ -269,8 +316,15 @@ class Hub:
                 lab = self.label_operand(b2, t['args'][0])
                 kinds.add('control' if lab == {ROOT} else 'other')
             elif o.kind == 'param':
-                lab = self.param_label(self.F.body(bp), o.key)
-                kinds.add('control' if lab == {ROOT} else 'live' if lab == {SAFE} or lab == {SAFE, ROOT} else 'other')
+                pb_ = self.F.body(bp)
+                # a helper's parameter is whatever its callers pass (a staging path handed to an extracted helper stays a
+                # staging path); the handlers' own parameters are classified by label
+                cls = self.param_class(pb_, o.key) if not o.path else None
+                if cls:
+                    kinds |= cls
+                else:
+                    lab = self.param_label(pb_, o.key)
+                    kinds.add('control' if lab == {ROOT} else 'live' if lab == {SAFE} or lab == {SAFE, ROOT} else 'other')
             else:
                 kinds.add('other')
         if len(kinds) == 1:
